@@ -243,7 +243,7 @@ def coq_compare(name, header, runner, cases, shard=400, jobs=8):
     cdir = os.path.join(COQ, "cases")
     os.makedirs(cdir, exist_ok=True)
     mods = []
-    for m in re.finditer(r"From\s+Bingo\s+Require\s+(?:Import|Export)\s+([^.]*(?:\.[A-Za-z_][A-Za-z0-9_]*)*)\.", header):
+    for m in re.finditer(r"From\s+Bingo\s+Require\s+(?:Import|Export)\s+(.*?)\.(?:\s|$)", header, re.S):
         mods += [x.replace(".", "/") + ".vo" for x in m.group(1).split()]
     if mods:
         rc, out, _ = make(mods)
